@@ -61,9 +61,12 @@ impl<'a> Parser<'a> {
             Err(err) => return Piece::Error(err),
         };
 
-        Piece::Argument {
-            formatter,
-            parameters: self.parameters(),
+        match self.parameters() {
+            Ok(parameters) => Piece::Argument {
+                formatter,
+                parameters,
+            },
+            Err(err) => Piece::Error(err),
         }
     }
 
@@ -120,7 +123,7 @@ impl<'a> Parser<'a> {
         }
     }
 
-    fn parameters(&mut self) -> Parameters {
+    fn parameters(&mut self) -> Result<Parameters, String> {
         let mut params = Parameters {
             fill: ' ',
             align: Alignment::Left,
@@ -129,7 +132,7 @@ impl<'a> Parser<'a> {
         };
 
         if !self.consume(':') {
-            return params;
+            return Ok(params);
         }
 
         if let Some(&(_, ch)) = self.it.peek() {
@@ -148,25 +151,27 @@ impl<'a> Parser<'a> {
             params.align = Alignment::Right;
         }
 
-        if let Some(min_width) = self.integer() {
+        if let Some(min_width) = self.integer()? {
             params.min_width = Some(min_width);
         }
 
         if self.consume('.') {
-            if let Some(max_width) = self.integer() {
+            if let Some(max_width) = self.integer()? {
                 params.max_width = Some(max_width);
             }
         }
 
-        params
+        Ok(params)
     }
 
-    fn integer(&mut self) -> Option<usize> {
-        let mut cur = 0;
+    fn integer(&mut self) -> Result<Option<usize>, String> {
+        let mut cur = Some(0usize);
         let mut found = false;
         while let Some(&(_, ch)) = self.it.peek() {
             if let Some(digit) = ch.to_digit(10) {
-                cur = cur * 10 + digit as usize;
+                cur = cur
+                    .and_then(|cur| cur.checked_mul(10))
+                    .and_then(|cur| cur.checked_add(digit as usize));
                 found = true;
                 self.it.next();
             } else {
@@ -174,10 +179,10 @@ impl<'a> Parser<'a> {
             }
         }
 
-        if found {
-            Some(cur)
-        } else {
-            None
+        match (found, cur) {
+            (false, _) => Ok(None),
+            (true, Some(cur)) => Ok(Some(cur)),
+            (true, None) => Err("width too large".to_owned()),
         }
     }
 
